@@ -262,7 +262,6 @@ def judge_db(model: Dict[str, Any], col: common.Collector, tier: str = "quick",
             fault["variant"] += "+imported-elsewhere"
     fclass = (fault["class"] + ":" + fault["variant"]) if fault else "none"
     fkind = fault["kind"] if fault else "valid-db"
-    fform = next((st.form for st in sts if fault and list(st.key) == fault["key"]), "none")
     outcomes: List[Tuple[Tuple[Tuple[int, ...], bool], Any]] = []
     first_db = None
 
@@ -392,7 +391,7 @@ def retarget(model: Dict[str, Any], res: G.Resolver, sts: List[G.Site], exp: Dic
                 warnings.simplefilter("ignore")
                 retarget_snrefs(db, db.diag_layers[t])
         except Exception as e:
-            col.violation(("retarget-raises", type(e).__name__),
+            col.violation(("retarget-raises", type(e).__name__, raise_site(e)),
                           {"model": model, "target": t, "error": f"{type(e).__name__}: {e}"[:400]})
             col.ev()
             return
@@ -459,7 +458,7 @@ def part(task: Tuple[int, int, str], col: common.Collector) -> None:
 
 
 def run(tier: str, col: common.Collector) -> None:
-    per = 22 if tier == "quick" else 80
+    per = 18 if tier == "quick" else 80
     nw = common.NCPU if tier == "quick" else common.NCPU * 4
     common.pmap(part, [(w, per, tier) for w in range(nw)], col)
     missing = []
